@@ -402,6 +402,18 @@ def make_groups(rng, tier):
         kind = rng.choice(["O", "O", "Q"])
         add(kind, g_bsize.chain(rng.choice([0, 1]), kind), "size-boundary")
 
+    # reference chains whose referencing type has a marker in a non-last serial constraint
+    # (nested sub-ranges, so that most are accepted)
+    for _ in range(60 if tier == "quick" else 1200):
+        a = sorted(rng.choice(SMALL_SIZE) for _ in range(6))
+        first = (rng.choice("rx"), ('g', a[0], a[5]))
+        mid = (rng.choice("xxa"), ('g', a[1], a[4]))
+        if mid[0] == 'a':
+            mid = ('a', ('g', a[1], a[4]), ('v', rng.choice(SMALL_SIZE)))
+        lastc = (rng.choice("rrx"), ('g', a[2], a[3]))
+        kind = rng.choice(["T", "T", "O", "Q"])
+        add(kind, [[first], [mid, lastc]] if rng.chance(3, 4) else [[first], [mid], [lastc]], "chain-marker")
+
     # exhaustive: every leaf, every one-operator tree over two leaves (a sample of
     # those in the quick tier), with each marker form
     leaves = enumerate_small(SMALL)
